@@ -299,8 +299,12 @@ fn exchange_primitives(rep: &mut Report) {
                 }
                 // segments
                 let lim = l1.max(l2) + 2;
-                for start in 0..=lim {
-                    for end in 0..=lim {
+                // ... including ranges of astronomic length: they address positions outside both
+                // genomes and must be refused before anything is sized after them
+                let mut ranges: Vec<(usize, usize)> = (0..=lim).flat_map(|a| (0..=lim).map(move |b| (a, b))).collect();
+                ranges.extend([(0, usize::MAX), (1, usize::MAX), (usize::MAX - 1, usize::MAX), (usize::MAX, usize::MAX), (0, usize::MAX / 2 + 1), (2, 1 << 40), (0, 1 << 33), (usize::MAX, 0)]);
+                for (start, end) in ranges {
+                    {
                         let (mut a, mut b) = (a0.clone(), b0.clone());
                         let r = catch(|| a.crossover_segment(&mut b, start..end).map_err(|e| format!("{e:?}")));
                         rep.eval();
